@@ -332,6 +332,30 @@ class HostInterp:
                 except AnalysisError:
                     pass
             raise r
+        if isinstance(st, ast.Try):
+            try:
+                try:
+                    self.block(st.body, env)
+                except Raised as r:
+                    handled = False
+                    for h in st.handlers:
+                        names = []
+                        if h.type is not None:
+                            names = [dotted(t) for t in (h.type.elts if isinstance(h.type, ast.Tuple) else [h.type])]
+                        # an interpreted `raise X(...)` is caught by `except X` (or a bare / Exception handler)
+                        if h.type is None or r.what in names or "Exception" in names or "BaseException" in names:
+                            if h.name:
+                                self.bind(ast.Name(id=h.name, ctx=ast.Store()), getattr(r, "value", None), env)
+                            self.block(h.body, env)
+                            handled = True
+                            break
+                    if not handled:
+                        raise
+                else:
+                    self.block(st.orelse, env)
+            finally:
+                self.block(st.finalbody, env)
+            return
         if isinstance(st, (ast.Pass, ast.Assert, ast.Import, ast.ImportFrom, ast.Nonlocal, ast.Global)):
             return
         raise AnalysisError(f"rewriter interpretation: unsupported statement {type(st).__name__} at line {st.lineno}")
@@ -650,6 +674,11 @@ class HostInterp:
             return fn(*args, **kwargs)
         if fn in (int, str) and len(args) <= 1:
             return fn(*args)
+        if fn in (ast.parse, ast.fix_missing_locations, ast.increment_lineno, ast.walk, ast.dump, ast.unparse):
+            try:
+                return fn(*args, **kwargs)
+            except SyntaxError as ex:
+                raise Raised(f"SyntaxError: {ex}")
         if fn is ast.copy_location:
             new = kwargs.get("new_node", args[0] if args else None)
             old = kwargs.get("old_node", args[1] if len(args) > 1 else None)
